@@ -240,6 +240,18 @@ Lemma inst_swap_numpy_value :
   end = true.
 Proof. vm_compute. reflexivity. Qed.
 
+Lemma inst_swap_torch :
+  exists a b a' b' : Q,
+    torch_shift 4 4 2 (ccQ4 ref4 im4) (peak_win 0) = Some (a, b) /\
+    torch_shift 4 4 2 (ccQ4 im4 ref4) (peak_win 0) = Some (a', b') /\
+    neg_mod 4 a a' /\ neg_mod 4 b b'.
+Proof.
+  destruct setting_instance as (Hr & Hc & H1 & H2 & Hre & _).
+  apply (registration_swap_torch C c0 c1 cadd cmul csub copp Hr cconj Hc 4 w4 quarter 4 w4 quarter H1 H2
+           reC Hre ref4 im4 2 (peak_win 0) (peak_win 0) 3 2); try lia.
+  exact cc4_peak.
+Qed.
+
 (* ---------------------------------------------------------------- Q-level examples *)
 (* a 5 x 4 correlation array with its peak at (4, 1) (i.e. shift (-1, +1)), symmetric neighbours *)
 Definition cc54 : nat -> nat -> Q :=
